@@ -277,6 +277,9 @@ def exit_obligations(it, w, key, is_exec, r):
             if is_exec:
                 p.oblige(f"{key}/exit/C11/exhaustion-does-not-escape-execute", False, prop="C11")
             f = e.fields
+            # delivery contract of call(): an aborted run (abort_if, the operation's AbortRetryError, a handler's ABORT) is delivered as
+            # AbortRetryError - never as RetryExhaustedError, whatever stop_reason that would carry (the policy layer relies on it)
+            p.oblige(f"{key}/exit/abort-is-delivered-as-AbortRetryError", z3.Not(z3.Or(g["aborted"], g["handler_aborted"])), prop=None)
             delivered(it, w, key, v, stop_reason=f["stop_reason"], attempts=f["attempts"], last_class=f["last_class"],
                       last_exception=f["last_exception"], last_result=f["last_result"], next_sleep_s=f["next_sleep_s"],
                       cause=None, kind="RetryExhaustedError")
